@@ -63,3 +63,35 @@ Example C07_nonvacuous :
   forallb (fun m => inclass_C07 (ex7_A, m) && check_C07 (ex7_A, m) (model_C07 (ex7_A, m))
                     && negb (is_nil (diff (mkCfg true true) (reflect_sqlite ex7_A) (apply_mut m ex7_A)))) ex7_muts = true.
 Proof. vm_compute. reflexivity. Qed.
+
+(* ---------------------------------------------------------------- several changes at once (Spec/C07.v, stages)
+   for ALL lists of catalogue mutations, each applicable where it is applied: every emitted operation is about an object
+   one of the changes touches *)
+Theorem C07_seq_nothing_unrelated : forall g A ms o, wf_schemab A = true -> stages_applicable (stages ms A) = true ->
+  wf_schemab (apply_muts ms A) = true -> defaults_ok (apply_muts ms A) = true -> no_unnamed_uq (apply_muts ms A) = true ->
+  In o (diff g (reflect_sqlite A) (apply_muts ms A)) -> In (op_target o) (touched (stages ms A)).
+Proof. intros g A ms o HA Ha HB Hd Hu. apply nothing_else_seq; auto; try (apply wf_nd_schema; auto);
+  [apply dok_of_defaults_ok|apply named_of_no_unnamed]; auto. Qed.
+Print Assumptions C07_seq_nothing_unrelated.
+
+(* the "every change detected" half for several changes at once is checked case by case against the real comparison
+   (decider below, exact correspondence); it is proved for single changes only (C07_detects) *)
+Theorem C07_seq_decider_sound : forall i out, check_C07s i out = true -> C07s_holds i out.
+Proof. exact check_C07s_sound. Qed.
+Print Assumptions C07_seq_decider_sound.
+
+(* non-vacuity: a column removed while two are added and a third retyped; a table removed together with the foreign key
+   that pointed at it; a table added together with a foreign key to it -- all in the class, accepted on the model's output *)
+Definition ex7_B : schema :=
+  [mkTable 0 [mkCol 0 (mkTy 0 []) false true None true; mkCol 1 (mkTy 3 [20]) true false None true; mkCol 2 (mkTy 0 []) true false None true]
+             [] [mkFk 1 [2] 1 [0] no_opts true] [];
+   mkTable 1 [mkCol 0 (mkTy 0 []) false true None true; mkCol 1 (mkTy 0 []) true false None true] [] [] []].
+Definition ex7_seqs : list (schema * list mut) :=
+  [(ex7_A, [MDropCons 0 2; MDropFk 0 1; MDropColumn 0 2; MAddColumn 0 (mkCol 5 (mkTy 4 []) true false None true);
+            MAddColumn 0 (mkCol 6 (mkTy 0 []) true false None true); MChangeType 0 1 (mkTy 9 []); MFlipNullable 0 1]);
+   (ex7_B, [MDropFk 0 1; MDropTable 1; MDropColumn 0 1; MAddColumn 0 (mkCol 7 (mkTy 4 []) true false None true)]);
+   (ex7_A, [MAddTable (mkTable 2 [mkCol 0 (mkTy 0 []) false true None true] [] [] []); MAddFk 1 (mkFk 10 [0] 2 [0] no_opts true);
+            MChangeCons 0 (Ix 2 [2] false)])].
+Example C07_seq_nonvacuous :
+  forallb (fun i => inclass_C07s i && check_C07s i (model_C07s i) && Nat.leb 2 (length (snd (hd (mkCfg true true, []) (model_C07s i))))) ex7_seqs = true.
+Proof. vm_compute. reflexivity. Qed.
